@@ -72,7 +72,7 @@ def oracle_req(case, reply):
     if w[0] in ("camel", "snake") and IDENT.match(dec(w[1])):
         # PAR identifiers (what parol accepts as non-terminal / member name) must become Rust identifiers
         return "names-check id " + reply
-    if w[0] == "augname":
+    if w[0] == "gname33":
         return f"fresh-check {w[1]} {reply}"
     if w[0] == "tnames":
         r = reply.split()
@@ -103,7 +103,7 @@ def nontrivial(case):
     w = case.split()
     if w[0] in ("camel", "snake", "esckw", "purge", "tname"):
         return w[1] != "%."
-    if w[0] == "augname":
+    if w[0] == "gname33":
         return "," in w[1]
     if w[0] == "tnames":
         return w[3] != "-"
